@@ -129,8 +129,13 @@ func defectBlock(kind string, n int, r *Rand) string {
 		if strings.Contains(d, "%d") {
 			d = fmt.Sprintf(d, n)
 		}
-		fmt.Fprintf(&sb, "TYPE @nmA%d%s\n", n, d)
-		fmt.Fprintf(&sb, "TYPE @nmB%d%s\n", n, decl[r.Intn(7)])
+		if r.Chance(1, 6) {
+			// a union that reaches itself through another type (accepted by the builder)
+			fmt.Fprintf(&sb, "TYPE @nmA%d\n  @nmB%d | @nmS%d\nTYPE @nmB%d\n  @nmA%d | @nmS%d\nTYPE @nmS%d\n  1\n", n, n, n, n, n, n, n)
+		} else {
+			fmt.Fprintf(&sb, "TYPE @nmA%d%s\n", n, d)
+			fmt.Fprintf(&sb, "TYPE @nmB%d%s\n", n, decl[r.Intn(7)])
+		}
 		fmt.Fprintf(&sb, "ENUM @nmE%d\n  [\"a\", \"b\"]\n", n)
 		t := fmt.Sprintf("@nmA%d", n)
 		if r.Chance(1, 8) {
